@@ -104,6 +104,18 @@ func newCountSut(c *ev.Case, rules []ruleP, tag string) *countSut {
 			return nil
 		}
 		c.Logf("%s", r)
+		// in half of the cases the generator is already used while rules are still
+		// being added (results not judged here): the final rule set is what counts
+		if c.Index%2 == 1 {
+			if !c.Guard("Count.Generate", func() {
+				_ = s.g.Generate("early", r.period)
+				_ = s.g.Min(r.period + 1)
+				_ = s.g.Max(r.period - 1)
+			}) {
+				return nil
+			}
+			c.Add("count_used_between_addrule_calls", 1)
+		}
 	}
 	return s
 }
